@@ -71,6 +71,13 @@ class CallMixin:
         if k != 'ref':
             self.raise_new('AttributeError', smt.mk_str(f"'{k}' object has no attribute '{name}'"),
                            origin=f'attribute {name} of {k}')
+        if self.classobj_cands and self.feasible_is_classobj(obj):
+            # a class object known only through facts (e.g. an element of a list of error classes): find a bound the
+            # path condition implies among the classes this path has compared class objects with
+            for K in self.classobj_cands:
+                if self.implied(z3.And(Val.is_ref(obj), Val.r(obj) < 0, self.sub_term(Val.r(obj), K))):
+                    self.hint_classobj[smt.simp(obj).get_id()] = K
+                    return self.get_attr(obj, name, node)
         c = self.require_class(obj, f'receiver of .{name}')
         if not c.builtin and c.lookup(name) is None and name not in self.declared_attrs(c):
             for alt in self.hint_alt.get(smt.simp(obj).get_id(), []):
@@ -78,6 +85,13 @@ class CallMixin:
                     c = alt
                     break
         return self.instance_get_attr(obj, c, name, node)
+
+    def feasible_is_classobj(self, obj) -> bool:
+        """cheap syntactic filter: obj is not already known to be an ordinary instance"""
+        if self.known_cls.get(smt.simp(obj).get_id()) is not None or self.hint_cls.get(smt.simp(obj).get_id()) is not None:
+            return False
+        sid = smt.static_id(obj)
+        return sid is None
 
     def instance_get_attr(self, obj, c: ClassInfo, name: str, node=None):
         if name == '__class__':
